@@ -311,49 +311,58 @@ def random_targets(rng, tree, tips, ard):
 
 
 def sweep_histories(meta, ard):
-    """Burial thresholds and reorganisations at depth ARD-2 .. ARD for every role placement that the
-    scenario allows: a role confirmed at height h, a sync point at every block, then the block is
-    reorganised away at depth d and a branch without the role is followed past ARD."""
+    """Burial thresholds and reorganisations at depth ARD-2 .. ARD, for every role the starting state
+    offers: the root (role 1) in block 1 and the role under test in a later block, then
+      (a) one sync point per block until the role is ARD+1 deep;
+      (b) the role reorganised away with d confirmations (the root stays), the competing branch --
+          without the role, or with the role one block later -- followed block by block past ARD;
+      (c) as (b) but the client jumps: base -> tip of A in one transition, back to the fork point,
+          -> tip of B in one transition."""
     out = []
     avail = [r + 1 for r, ok in enumerate(meta["roles"]) if ok]
+    h1 = max(1, meta["minh"][0])
     for r in avail:
-        h1 = max(1, meta["minh"][0])
-        hr = h1 if r == 1 else max(h1, meta["minh"][r - 1], 1)
-        # (a) linear: every block a sync point, until the role is ARD+1 deep
+        hr = h1 if r == 1 else max(h1 + 1, meta["minh"][r - 1])
+
+        def place(n, extra=None):
+            txs = [[] for _ in range(n)]
+            txs[h1 - 1].append(1)
+            if r != 1:
+                txs[hr - 1].append(r)
+            if extra is not None:
+                txs[extra].append(r)
+            return [sorted(set(x)) for x in txs]
         n = hr + ard + 1
         if n <= 12:
-            txs = [[] for _ in range(n)]
-            txs[h1 - 1] = sorted(set(txs[h1 - 1] + [1]))
-            txs[hr - 1] = sorted(set(txs[hr - 1] + [r]))
-            t = Tree(list(range(n)), txs)
+            t = Tree(list(range(n)), place(n))
             if tree_valid(t, meta):
                 out.append((t, list(range(1, n + 1))))
-        # (b) reorganised away at depth d, competing branch without the role grows past ARD
-        for d in (ard - 2, ard - 1, ard):
-            la = hr + d - 1                     # role has d confirmations at the tip of A
-            lb = min(12 - la, d + 1)
+        for d in (ard - 3, ard - 2, ard - 1, ard):
+            la = hr + d - 1                     # the role has d confirmations at the tip of A
+            lb = min(12 - la, max(d + 1, ard - 1))
             if lb < 1 or la > 11:
                 continue
             parent = list(range(la)) + [hr - 1] + [la + k for k in range(1, lb)]
-            txs = [[] for _ in parent]
-            txs[h1 - 1] = sorted(set(txs[h1 - 1] + [1]))
-            txs[hr - 1] = sorted(set(txs[hr - 1] + [r]))
-            if r == 1 and False:
-                pass
-            t = Tree(parent, txs)
-            if not tree_valid(t, meta):
-                continue
-            # walk up A, back to the fork point, then up B block by block
-            targets = ([la - 1] if la > 1 else []) + [la, hr - 1] + [la + k for k in range(1, lb + 1)]
-            out.append((t, targets))
-            # same, but the role re-confirms one block later in the competing branch
-            if lb >= 2:
-                txs2 = [list(x) for x in txs]
-                txs2[la + 1] = sorted(set(txs2[la + 1] + ([r] if r != 1 else [1])))
-                t2 = Tree(parent, txs2)
-                if tree_valid(t2, meta):
-                    out.append((t2, targets))
-    return out
+            walk = ([la - 1] if la > 1 else []) + [la, hr - 1] + [la + k for k in range(1, lb + 1)]
+            jump = [la, hr - 1, la + lb]
+            for extra in (None, la + 1 if lb >= 2 else None):
+                if extra is None and r == 1 and False:
+                    continue
+                t = Tree(parent, place(len(parent), extra))
+                if not tree_valid(t, meta):
+                    continue
+                out.append((t, walk))
+                out.append((t, jump))
+                if extra is None:
+                    break
+    # no duplicates
+    seen, res = set(), []
+    for t, tg in out:
+        k = (tuple(t.parent), tuple(tuple(x) for x in t.txs), tuple(tg))
+        if k not in seen:
+            seen.add(k)
+            res.append((t, tg))
+    return res
 
 
 def chain_key(scen, tree, tip):
